@@ -279,6 +279,31 @@ def execute(case, scratch):
                     return viol("cli_subset_summary_differs_from_projection",
                                 {"subset": sub, "printed": sorted([sorted(k), v] for k, v in rows.items()),
                                  "projection": sorted([sorted(k), v] for k, v in want.items())})
+                # "-p S" must behave like an analysis file that only has the tables of S (both front ends)
+                subfile = os.path.join(top, "proj/db/analysis_subset.toml")
+                with open(os.path.join(top, W.analysis_path(world))) as fh:
+                    text = fh.read()
+                head = text.split("\n[platform.")[0]
+                with open(subfile, "w") as fh:
+                    fh.write(head)
+                    for p in world["platforms"]:
+                        if p["name"] in sub:
+                            fh.write(f"\n[platform.{p['name']}]\ncommands = \"{os.path.join(top, p['db'])}\"\n")
+                pflags = [x for s_ in sub for x in ("-p", s_)]
+                for module, base in (("codebasin", ["-R", "summary"]), ("codebasin.tree", [])):
+                    a = runners.run_fresh("cli_run", {"top": top, "cwd": root, "module": module,
+                                                      "argv": base + pflags + [os.path.join(top, W.analysis_path(world))]})
+                    b = runners.run_fresh("cli_run", {"top": top, "cwd": root, "module": module,
+                                                      "argv": base + [subfile]})
+                    stats["cli_runs"] += 2
+                    ao = "\n".join(l for l in a["out"].split("\n") if not l.startswith("Log file created"))
+                    bo = "\n".join(l for l in b["out"].split("\n") if not l.startswith("Log file created"))
+                    if (a["rc"], ao) != (b["rc"], bo):
+                        from . import c14
+
+                        return viol("dash_p_differs_from_subset_analysis_file",
+                                    {"front_end": module, "subset": sub, "rc": [a["rc"], b["rc"]],
+                                     "diff": c14._first_diff(ao, bo)})
         # H_share: successive analyses inside one interpreter vs each fresh
         order = [i for i in sched.get("share_order", []) if i < nplat]
         if len(order) >= 2 and "share" not in skip:
